@@ -221,6 +221,17 @@ def hh_parent_elsewhere(year, hh=14):
     return rows
 
 
+def hh_two_selfsufficient(year, hh=16):
+    """Parent with two young-adult children who both cover their own needs (two extra needs units in one family)."""
+    a, c, d = 10 * hh, 10 * hh + 1, 10 * hh + 2
+    rows = [
+        worker(a, hh, 50, year, 1300.0, ges_pflegev_hat_kinder=True, weiblich=True),
+        person(c, hh, 17, year, p_id_elternteil_1=a, p_id_kindergeld_empf=a, in_ausbildung=True, bruttolohn_m=1100.0, eigenbedarf_gedeckt=True),
+        person(d, hh, 19, year, p_id_elternteil_1=a, p_id_kindergeld_empf=a, in_ausbildung=True, bruttolohn_m=950.0, eigenbedarf_gedeckt=True, kind=False),
+    ]
+    return _hh_common(rows, bruttokaltmiete_m_hh=700.0, wohnfläche_hh=85.0)
+
+
 LIBRARY = collections.OrderedDict(
     single=hh_single,
     couple_kids=hh_couple_kids,
@@ -235,6 +246,7 @@ LIBRARY = collections.OrderedDict(
     parental_leave=hh_parental_leave,
     young_adult=hh_young_adult,
     parent_elsewhere=hh_parent_elsewhere,
+    two_selfsufficient=hh_two_selfsufficient,
 )
 
 
